@@ -54,16 +54,23 @@ def main():
     # one VIOLATION line per distinct signature
     seen = set()
     nviol = 0
+    per_kind = {}
     for v in new:
         sig = (v.get("kind"), v.get("what"))
         if sig in seen:
             continue
         seen.add(sig)
         nviol += 1
+        per_kind[v.get("kind")] = per_kind.get(v.get("kind"), 0) + 1
+        if per_kind[v.get("kind")] > 4:
+            continue                  # at most four replays per kind of failure; the count is in the summary
         path = common.write_replay(prop, v)
         tail = " no-failing-input-found" if v.get("no_failing_input") else ""
         print("VIOLATION property=%s replay=%s%s" % (prop, path, tail))
         print("   %s: %s" % (v.get("kind"), str(v.get("what"))[:300]))
+    for k, n in per_kind.items():
+        if n > 4:
+            print("   ... %d more distinct failures of kind %s" % (n - 4, k))
     cov = res["coverage"]
     cov.setdefault("known_findings_reproduced", {k: n for k, (h, n) in known_hit.items()})
     common.write_evidence(prop, a.tier, res["level"], cov, time.time() - t0, nviol, res.get("assumptions", []))
